@@ -120,7 +120,11 @@ class SQLiteBuilder(SQLBuilder):
         assert isinstance(td, datetime.timedelta)
         modifiers = []
         seconds = td.seconds + td.days * 24 * 3600
-        sign = '+' if seconds > 0 else '-'
+        microseconds = td.microseconds
+        if seconds < 0 and microseconds:
+            seconds += 1
+            microseconds = 1000000 - microseconds
+        sign = '+' if seconds > 0 or (not seconds and microseconds) else '-'
         seconds = abs(seconds)
         if seconds >= (24 * 3600):
             days = seconds // (24 * 3600)
@@ -134,28 +138,34 @@ class SQLiteBuilder(SQLBuilder):
             minutes = seconds // 60
             modifiers.append(", '%s%d minutes'" % (sign, minutes))
             seconds -= minutes * 60
-        if seconds:
+        if microseconds:
+            modifiers.append(", '%s%d.%06d seconds'" % (sign, seconds, microseconds))
+        elif seconds:
             modifiers.append(", '%s%d seconds'" % (sign, seconds))
         if not modifiers: return builder(expr)
+        if funcname == 'datetime': return builder.datetime_func(builder(expr), modifiers)
         return funcname, '(', builder(expr), modifiers, ')'
+    def datetime_func(builder, *args):
+        # the same text format as stored datetime values have, so the result can be compared with them
+        return "strftime('%Y-%m-%d %H:%M:%f000', ", args, ')'
     def DATE_ADD(builder, expr, delta):
         if delta[0] == 'VALUE' and isinstance(delta[1], datetime.timedelta):
             return builder.datetime_add('date', expr, delta[1])
-        return 'datetime(julianday(', builder(expr), ') + ', builder(delta), ')'
+        return 'date(julianday(', builder(expr), ') + ', builder(delta), ')'
     def DATE_SUB(builder, expr, delta):
         if delta[0] == 'VALUE' and isinstance(delta[1], datetime.timedelta):
             return builder.datetime_add('date', expr, -delta[1])
-        return 'datetime(julianday(', builder(expr), ') - ', builder(delta), ')'
+        return 'date(julianday(', builder(expr), ') - ', builder(delta), ')'
     def DATE_DIFF(builder, expr1, expr2):
         return 'julianday(', builder(expr1), ') - julianday(', builder(expr2), ')'
     def DATETIME_ADD(builder, expr, delta):
         if delta[0] == 'VALUE' and isinstance(delta[1], datetime.timedelta):
             return builder.datetime_add('datetime', expr, delta[1])
-        return 'datetime(julianday(', builder(expr), ') + ', builder(delta), ')'
+        return builder.datetime_func('julianday(', builder(expr), ') + ', builder(delta))
     def DATETIME_SUB(builder, expr, delta):
         if delta[0] == 'VALUE' and isinstance(delta[1], datetime.timedelta):
             return builder.datetime_add('datetime', expr, -delta[1])
-        return 'datetime(julianday(', builder(expr), ') - ', builder(delta), ')'
+        return builder.datetime_func('julianday(', builder(expr), ') - ', builder(delta))
     def DATETIME_DIFF(builder, expr1, expr2):
         return 'julianday(', builder(expr1), ') - julianday(', builder(expr2), ')'
     def RANDOM(builder):
